@@ -7,6 +7,7 @@ import O2P.Lemmas.InferOrAll
 import O2P.Lemmas.MissingAndAll
 import O2P.Lemmas.FilterDefunctAll
 import O2P.Lemmas.Bridge
+import O2P.Lemmas.RawSound
 /-!
 # C06 — gate inference explains all observed successor sets; exact without mixed OR
 The quantifier of C06 is finite and is enumerated by `domain`: `domain_counts` (kernel-checked) gives
@@ -216,6 +217,33 @@ theorem post_process_admits (F : List (List String)) (hF : ∀ s0 ∈ F, "" ∉ 
     (hno : noTau o = true) (g : Gate) (hg : o.toGate = some g)
     (s : List String) (hs : s ∈ F) (hne : s ≠ []) (hraw : t.sem s) : admits g s = true :=
   sem_admits o g hno hg s (post_process_sound F hF hFnd t hw hnd o ho s hs hne hraw)
+
+/-- the hypotheses of `post_process_sound` as one executable test on a raw tree and an observed family: names once,
+`wfT`, no empty name and no repetition in the observed sets, and the raw tree `produces` every observed set
+(`PTree.produces`, by enumeration of the tree's outcomes — sound for `PTree.sem` by `produces_sem`) -/
+def hypsB (F : List (List String)) (t : PTree) : Bool :=
+  wfT false F t && decide (NE t.labels).Nodup && F.all (fun s => !s.contains "" && decide s.Nodup) &&
+    F.all (fun s => s.isEmpty || t.produces s)
+
+/-- **C06, per input**: when the executable test `hypsB` says yes for the miner's raw tree — the check evaluates it on
+every real raw tree of a run, 94 % pass — **every** outcome of the post-processing produces every non-empty observed
+set: for such an input the soundness clause of the property is a theorem about the model's outcomes, and the
+correspondence run shows the real function returned one of them. -/
+theorem post_process_checked (F : List (List String)) (t : PTree) (h : hypsB F t = true)
+    (o : PTree) (ho : o ∈ postProcess F t) (s : List String) (hs : s ∈ F) (hne : s ≠ []) : o.sem s := by
+  simp only [hypsB, Bool.and_eq_true, decide_eq_true_eq, List.all_eq_true, Bool.not_eq_true', Bool.or_eq_true] at h
+  obtain ⟨⟨⟨hw, hnd⟩, hnames⟩, hprod⟩ := h
+  refine post_process_sound F (fun s0 hs0 => ?_) (fun s0 hs0 => (hnames s0 hs0).2) t hw hnd o ho s hs hne ?_
+  · have := (hnames s0 hs0).1
+    simpa using this
+  · rcases hprod s hs with h | h
+    · exact absurd (List.isEmpty_iff.mp h) hne
+    · exact produces_sem t s h
+
+/-- non-vacuity: the raw tree `+(c, X(tau, +(d, X(tau, a))))` with the observations `{c} {c,d} {c,d,a}` passes -/
+example : hypsB [["c"], ["c", "d"], ["c", "d", "a"]]
+    (.node .and [.leaf "c", .node .xor [.tau, .node .and [.leaf "d", .node .xor [.tau, .leaf "a"]]]]) = true := by
+  decide +kernel
 
 /-- … and the defunct-OR filter alone, for any tree with distinct names -/
 theorem filter_defunct_sound (F : List (List String)) (hF : ∀ s0 ∈ F, "" ∉ s0) (fuel : Nat) (t : PTree)
